@@ -14,9 +14,9 @@ import (
 // C18: recording, fault-injecting wrapper around filesys.FileSystem.
 //
 // Every call made through the FileSystem interface is recorded as (op, path, ok).
-// Fallible operations (those returning an error) are numbered 0,1,2,…; when the number of a
-// fallible operation equals faultAt it fails WITHOUT touching the underlying file system.
-// Boolean operations (Exists, IsDir) cannot report failure and are recorded but never faulted.
+// EVERY call is numbered 0,1,2,… (its index in the trace); when the number of a call equals faultAt
+// it fails WITHOUT touching the underlying file system: a call that can return an error returns
+// one; Exists and IsDir, which cannot report failure, answer false (a failed stat reads as "no").
 
 type fsEvent struct {
 	Op   string `json:"op"`
@@ -26,7 +26,7 @@ type fsEvent struct {
 
 type errInjected struct{ n int }
 
-func (e errInjected) Error() string { return fmt.Sprintf("injected fault at fallible operation %d", e.n) }
+func (e errInjected) Error() string { return fmt.Sprintf("injected fault at file-system call %d", e.n) }
 
 type faultFS struct {
 	filesys.FileSystem // the wrapped file system; unlisted methods are forwarded unrecorded (none are used)
@@ -129,12 +129,20 @@ func (f *faultFS) Walk(path string, walkFn filepath.WalkFunc) error {
 }
 
 func (f *faultFS) Exists(path string) bool {
+	if err := f.fallible(); err != nil {
+		f.rec("Exists", path, false)
+		return false
+	}
 	b := f.FileSystem.Exists(path)
 	f.rec("Exists", path, b)
 	return b
 }
 
 func (f *faultFS) IsDir(path string) bool {
+	if err := f.fallible(); err != nil {
+		f.rec("IsDir", path, false)
+		return false
+	}
 	b := f.FileSystem.IsDir(path)
 	f.rec("IsDir", path, b)
 	return b
